@@ -170,7 +170,21 @@ func qB(b bool) string {
 }
 
 // qHex renders a byte string as (hex "...").
-func qHex(b []byte) string { return `(hex "` + hex.EncodeToString(b) + `")` }
+func qHex(b []byte) string {
+	if len(b) <= 512 {
+		return `(hex "` + hex.EncodeToString(b) + `")`
+	}
+	// a long literal would nest tens of thousands of String constructors: split it
+	var parts []string
+	for i := 0; i < len(b); i += 512 {
+		j := i + 512
+		if j > len(b) {
+			j = len(b)
+		}
+		parts = append(parts, `"`+hex.EncodeToString(b[i:j])+`"`)
+	}
+	return "(hexs [" + strings.Join(parts, "; ") + "])"
+}
 
 // qOptHex renders nil vs non-nil byte slices.
 func qOptHex(b []byte) string {
